@@ -178,4 +178,70 @@ def SortRes.agrees : SortRes → SortResF → Bool
   | .abort, .abort => true
   | _, _ => false
 
+/-! ## agreement of `sortHLF` with `sortHL`, and the known defect F19 -/
+
+/-- the list `hostlist_create` builds from a string (`[]` on a parse error); for the checks below -/
+def hlOfString (s : String) : Hostlist :=
+  match create s.toList with
+  | .ok hl => hl
+  | .error _ => []
+
+/- `sortHL` is a `partial def`, so agreement can only be observed by evaluation, not proved.  With
+
+     def showRes : SortResF → String
+       | .ok hl => "ok " ++ String.ofList (rangedString hl) | .abort => "abort" | .fuel => "fuel"
+     #eval tests.map fun s => ((sortHL (hlOfString s)).agrees (sortHLF (hlOfString s)), showRes (sortHLF (hlOfString s)))
+
+   the observed output (Lean 4.33.0) is `true` (same `Hostlist`, compared with `==`, or both abort) on every one of:
+
+     "f[97-100,066,97-103]"              abort          (known defect F19, in both)
+     "f[066,97-100,97-103]"              abort
+     "f[97-103,066,97-100]"              abort
+     "f[9-10,06,9-13]"                   abort
+     "b2,a[1-3],a[2-5],b1"               ok a[1-2,2-3,3-5],b[1-2]
+     "n[1-10],n[5-7]"                    ok n[1-5,5-6,6-7,7-10]
+     "n[08-10],n[9-11],n007"             ok n[9-11,08-10,007]
+     "x,x,y,x1,x01,x[1-3]"               ok x,x,x[1,1-3,01],y
+     ""                                  ok (empty)
+     "a"                                 ok a
+     "a[1-5]"                            ok a[1-5]
+     "b,a"                               ok a,b
+     "a3,a2,a1,a2,a3"                    ok a[1-2,2-3,3]
+     "n[1-3],n[1-3],n[1-3]"              ok n[1,1,1-2,2,2-3,3,3]
+     "n[10-20],n[1-30],n[5-6],n[15-40]"  ok n[1-5,5-6,6-10,10-11,…,14-15,15,15-16,16,…,19-20,20,20-21,21-22,…,29-30,30-40]
+     "z9,z[08-12],z[008-012],z10,y,y,y0,y00"
+                                         ok y,y,y[0,00],z[9,08-10,10-12,008-012]
+     "c[3-4],b[1-2],a[5-9],c[1-2],b[2-7],a1,a[0-3],d,d1x,e[1-2]x"
+                                         ok a[0-1,1-3,5-9],b[1-2,2-7],c[1-4],d,d1x,e1x,e2x
+     "n30,n29,…,n1,n0,m5,m3,m4,m[3-5],m1"    (36 ranges)
+                                         ok m[1,3,3-4,4-5,5],n[0-30]
+     "p[1-2],q[1-2],p[2-3],q[2-3],…,p[16-17],q[16-17]"    (32 ranges)
+                                         ok p[1-2,2-3,…,16-17],q[1-2,2-3,…,16-17]
+     "h[1-100],h[50-150],h[25-75],h[1-1],h100"
+                                         ok h[1,1-25,25-26,…,49-50,50,50-51,51,…,74-75,75,75-76,76-77,…,99-100,100,100-150]
+     "a[01-03],a[1-3],a[001-003],a2,a02" ok a[1-2,2-3,01-02,02-03,001-003]
+     "k[5-9],k[1-3],k4,k[10-12],k[0-0]"  ok k[0-12]
+     "w1,w[1-2],w[1-3],w[1-4],w[2-4],w[3-4],w4"
+                                         ok w[1,1,1,1-2,2,2,2-3,3,3,3-4,4,4,4]
+
+   `.fuel` was never observed.  A further run over 20000 pseudo-random lists (0-8 ranges, three prefixes `a`/`b`/`a1`,
+   singles, `lo < 14`, length ≤ 6, widths 1-3) gave agreement on all 20000 (25 of them abort in both, none `.fuel`).
+   The differential harness compares `sortHL` with the C function. -/
+
+/-- the `…F` version evaluates in the kernel -/
+example : sortHLF (hlOfString "b2,a[1-3],a[2-5],b1") = .ok (hlOfString "a[1-2],a[2-3],a[3-5],b[1-2]") := by decide +kernel
+example : sortHLF (hlOfString "n[1-10],n[5-7]") = .ok (hlOfString "n[1-5],n[5-6],n[6-7],n[7-10]") := by decide +kernel
+example : sortHLF (hlOfString "n[08-10],n[9-11],n007") = .ok (hlOfString "n[9-11],n[08-10],n007") := by decide +kernel
+example : sortHLF (hlOfString "x,x,y,x1,x01,x[1-3]") = .ok (hlOfString "x,x,x1,x[1-3],x01,y") := by decide +kernel
+example : sortHLF (hlOfString "k[5-9],k[1-3],k4,k[10-12],k[0-0]") = .ok (hlOfString "k[0-12]") := by decide +kernel
+example : sortHLF (hlOfString "") = .ok [] := by decide +kernel
+example : sortHLF (hlOfString "a[1-5]") = .ok (hlOfString "a[1-5]") := by decide +kernel
+
+/-- known defect F19 reproduces in the `…F` version: sorting `f[97-100,066,97-103]` dies in
+    `assert(hostrange_cmp(h1, h2) <= 0)` of `hostrange_intersect` -/
+theorem sortHLF_F19_abort : sortHLF (hlOfString "f[97-100,066,97-103]") = .abort := by decide +kernel
+
+example : hlOfString "f[97-100,066,97-103]" =
+    [⟨['f'], 97, 100, 2, false⟩, ⟨['f'], 66, 66, 3, false⟩, ⟨['f'], 97, 103, 2, false⟩] := by decide +kernel
+
 end Pm
